@@ -477,6 +477,128 @@ func bareCase(w string) {
 	exprCase(w+":v "+w, "bare")
 }
 
+// ---- denotation probe: one key, the same word spelled as bare / quoted literal / regexp in ONE
+// expression.  A literal — however spelled, even one that looks like /regexp/ — must match exactly
+// its own text; a regexp must match what Go's regexp package says.  The spec side gets the term
+// structure and the regexp oracle on the case line and evaluates the boolean combination itself.
+
+type dterm struct {
+	neg  bool
+	form byte // 'L' literal (bare if possible), 'Q' quoted literal, 'R' regexp /word/
+	word string
+}
+
+func bareOK(w string) bool {
+	if w == "" || w == "AND" || w == "OR" || strings.ContainsAny(w, " \t\n\v\f\r():@,\"") {
+		return false
+	}
+	return w[0] != '-' && w[0] != '*' && w[0] != '/'
+}
+
+func (t dterm) render() string {
+	switch t.form {
+	case 'R':
+		return "/" + t.word + "/"
+	case 'L':
+		if bareOK(t.word) {
+			return t.word
+		}
+	}
+	return strconv.Quote(t.word)
+}
+
+var denoteProbes = []string{"/^v$/", "/./", "/v/", "/a|b/", "v", "^v$", ".", "a|b", "a", "x", "vv", "", "/", "//"}
+
+func denoteCase(conn string, terms []dterm) {
+	var parts, tdesc, rms []string
+	for _, t := range terms {
+		neg := ""
+		if t.neg {
+			neg = "-"
+		}
+		if conn == "list" {
+			parts = append(parts, t.render())
+		} else {
+			parts = append(parts, neg+"k:"+t.render())
+		}
+		n := "-"
+		if t.neg {
+			n = "n"
+		}
+		tdesc = append(tdesc, n+string(t.form)+hx.HexS(t.word))
+		bits := make([]byte, len(denoteProbes))
+		for i, p := range denoteProbes {
+			bits[i] = '0'
+			if t.form == 'R' {
+				if ok, _ := regexp.MatchString(t.word, p); ok {
+					bits[i] = '1'
+				}
+			}
+		}
+		rms = append(rms, string(bits))
+	}
+	var text string
+	switch conn {
+	case "list":
+		text = "k:(" + strings.Join(parts, " OR ") + ")"
+	case "and":
+		text = strings.Join(parts, " ")
+	default:
+		text = strings.Join(parts, " OR ")
+	}
+	if mine() {
+		cid := id - 1
+		hx.Printf("case %d kind=denote text=%s conn=%s terms=%s probes=%s rm=%s tag=denote\n", cid, hx.HexS(text), conn,
+			strings.Join(tdesc, ","), hx.HexListS(denoteProbes), strings.Join(rms, ","))
+		guarded(cid, func(out *strings.Builder) {
+			f, err := benchproc.NewFilter(text)
+			if err != nil {
+				fmt.Fprintf(out, "sobs %d den=err\n", cid)
+				return
+			}
+			bits := make([]byte, len(denoteProbes))
+			for i, p := range denoteProbes {
+				bits[i] = '0'
+				if matchAll(f, mkRes("X", "k", p)) == "1" {
+					bits[i] = '1'
+				}
+			}
+			fmt.Fprintf(out, "sobs %d den=ok:%s\n", cid, bits)
+		})
+	}
+	exprCase(text, "denote")
+}
+
+var denoteWords = []string{"v", "^v$", ".", "a|b", "/^v$/", "/./", "/v/", "/a|b/", "vv", "x"}
+
+func genDenote(r *hx.Rand) {
+	n := 2 + r.Intn(2)
+	conn := hx.Pick(r, []string{"or", "and", "list", "or"})
+	var terms []dterm
+	base := hx.Pick(r, []string{"v", "^v$", ".", "a|b"})
+	for i := 0; i < n; i++ {
+		var t dterm
+		switch r.Intn(5) {
+		case 0: // the regexp
+			t = dterm{form: 'R', word: base}
+		case 1: // the quoted literal that looks like it
+			t = dterm{form: 'Q', word: "/" + base + "/"}
+		case 2: // the same word as a literal
+			t = dterm{form: hx.Pick(r, []byte{'L', 'Q'}), word: base}
+		default:
+			t = dterm{form: hx.Pick(r, []byte{'L', 'Q', 'R'}), word: hx.Pick(r, denoteWords)}
+			if t.form == 'R' && strings.Contains(t.word, "/") {
+				t.form = 'Q'
+			}
+		}
+		if conn != "list" && r.Chance(1, 4) {
+			t.neg = true
+		}
+		terms = append(terms, t)
+	}
+	denoteCase(conn, terms)
+}
+
 func unqCase(text string) {
 	if !mine() {
 		return
@@ -515,7 +637,7 @@ func randBytes(r *hx.Rand, n int) string {
 }
 
 var words = []string{"a", "b", ".name", ".fullname", "/size", ".unit", ".config", "goos", "AND", "OR", "x-y", "a*b", "é", "ANDa", "\"q r\"", "\"\\\\\"", "\"\"", "\"\\\"\"", "-", "*"}
-var orders = []string{"alpha", "num", "first", "fixed", "bogus", "\"alpha\"", "ALPHA", ""}
+var orders = []string{"alpha", "num", "first", "fixed", "bogus", "\"alpha\"", "ALPHA", "", "\"\"", "\"num\"", "\"bogus\"", "\"first\""}
 var regexps = []string{"/a/", "/a|b/", "/[/]/", "/(a/b)/", "/\\//", "/a)/", "/[a/", "/(/", "/a/b", "/*/", "/\\/", "//", "/[]/]/", "/[[]/]/", "/(?i)x/"}
 
 func genValue(r *hx.Rand) string {
@@ -624,6 +746,9 @@ func main() {
 			case "bare":
 				t, _ := hx.Field(l, "w")
 				bareCase(string(hx.UnHex(t)))
+			case "denote":
+				t, _ := hx.Field(l, "text")
+				exprCase(string(hx.UnHex(t)), "replay")
 			case "unq":
 				t, _ := hx.Field(l, "text")
 				unqCase(string(hx.UnHex(t)))
@@ -644,6 +769,29 @@ func main() {
 	}
 	for _, s := range []string{"", "\\", "x\\", "\\\\", "\"", "\\\"", "a b", "-x", "*", "AND", "(", "\n", "\x00", "\xff", "é", "\u2003", "'", "\x7f", "\ufffd", "\U0010ffff", "\xed\xa0\x80", "/x/", ".config", ".unit", ".name"} {
 		quoteCase(s, r)
+	}
+
+	// 0b. denotation: the same word as literal and as regexp under one key in one expression
+	for _, c := range []struct {
+		conn  string
+		terms []dterm
+	}{
+		{"or", []dterm{{false, 'R', "^v$"}, {false, 'Q', "/^v$/"}}},
+		{"or", []dterm{{false, 'Q', "/^v$/"}, {false, 'R', "^v$"}}},
+		{"list", []dterm{{false, 'R', "^v$"}, {false, 'Q', "/^v$/"}}},
+		{"list", []dterm{{false, 'Q', "/^v$/"}, {false, 'R', "^v$"}}},
+		{"and", []dterm{{true, 'Q', "/./"}, {false, 'R', "."}}},
+		{"and", []dterm{{true, 'R', "."}, {false, 'Q', "/./"}}},
+		{"or", []dterm{{false, 'L', "v"}, {false, 'Q', "v"}, {false, 'R', "v"}}},
+		{"and", []dterm{{false, 'R', "v"}, {true, 'Q', "/v/"}, {true, 'L', "vv"}}},
+	} {
+		denoteCase(c.conn, c.terms)
+	}
+	for _, t := range []string{`a@""`, `.name,/size@"",goos@alpha`, `.fullname@""`, `a@"alpha"`, `"a"@"num" b`, `a@"bogus"`, `a@"first"`, `"":x`, `""@alpha`, `a b,c@num`} {
+		exprCase(t, "witness")
+	}
+	for i, n := 0, hx.N(1500, 30000); i < n; i++ {
+		genDenote(r)
 	}
 
 	// 1. exhaustive over the special alphabet
